@@ -33,7 +33,18 @@ def main(argv):
     mod = __import__("harness." + DISPATCH[prop], fromlist=["x"])
     try:
         if replay:
-            return mod.replay(prop, replay)
+            # Replay = the same deterministic exploration (seed and tier recorded in the replay file), reporting only the
+            # failing input whose canonical key the file names: exit 1 iff that violation is still there.
+            import json
+            info = json.load(open(replay))
+            os.environ["VERIF_REPLAY_KEY"] = info["key"]
+            print(f"replaying {info['property']} key={info['key']}: {info['what'][:300]}")
+            from . import common
+            common.SEED = int(info.get("seed", common.SEED))
+            for m_ in list(sys.modules.values()):
+                if getattr(m_, "__name__", "").startswith("harness.") and hasattr(m_, "SEED"):
+                    m_.SEED = common.SEED
+            return mod.check(prop, info.get("tier", tier))
         return mod.check(prop, tier)
     except MachineryError as exc:
         print(f"MACHINERY-ERROR property={prop}: {exc}")
